@@ -10,6 +10,20 @@ CLAIMED = {
    note="Texts outside the alphabets/length bounds are not covered (no sampling). Non-termination is decided up to a 5 s per-case horizon. Trusts rustc/cargo and the harness's own enumerators.",
    technique="bounded exhaustive input enumeration on the real front end (stateless exploration, crash/hang attribution per case)"),
 }
+CLAIMED.update({
+ "C06": dict(level="model_checking", design="4.6",
+   text="Exhaustive table: 30 representative values (every kind, zero/non-zero, empty/non-empty, NaN, -0.0, smallest subnormal, closure, builtin, error object) in every truthiness position (!v, if, if !v, while, && and || left operand, filter pattern with an action through the binary) and all 30x30 ordered pairs for a && probe(b) and a || probe(b) with a recording probe on the right operand; operands are injected into the real VM as objects; oracle = the statement's table.",
+   note="Values outside the representative set are not covered. Filter position: only 'action runs iff truthy' is compared.",
+   technique="exhaustive enumeration of value x position and value-pair tables on the real compiler+VM"),
+ "C09": dict(level="model_checking", design="4.9",
+   text="Exhaustive operator x operand-pair table: 16 binary operators over all ordered pairs and 3 unary operators over all elements of 44 (thorough: 85) boundary values, each once with operands injected as objects and once written as source literals, compared with a transcription of the statement's numeric/typing model (wrapping i64/u8, IEEE doubles, errors for every other combination).",
+   note="Trusts the reference model mc/src/refval.rs. Combinations the statement does not pin (byte vs int/float comparison, bitwise ops on bytes, int*string) are counted as skipped_unspecified; a panic there is still reported.",
+   technique="exhaustive enumeration of operator x boundary-operand pairs against a reference model"),
+ "C10": dict(level="model_checking", design="4.10",
+   text="(i) all 34x34 ordered key pairs x 12 access programs with the VM's own k1==k2 as oracle (differential); (ii) explicit-state breadth-first search to a fixpoint over insert/index-assignment histories on 8 mutually colliding keys x 2 values (1125 canonical states, 36000 transitions), each transition replayed from scratch on a fresh real map and probed with every key through get/contains/len against an association-list model.",
+   note="Canonical state = association list including which key object is stored (sound: a map's future is a function of its stored pairs). Keys outside the domain are not covered.",
+   technique="explicit-state BFS over operation histories with canonical-state de-duplication + exhaustive pair table"),
+})
 NOT_YET = "check not built yet in this round (machinery under construction; see DESIGN.md section 4 for the planned check)"
 
 props = [json.loads(l) for l in open(os.path.join(HERE, "properties.jsonl"))]
